@@ -240,16 +240,21 @@ func (c *octx) call(s ostate, call *ssa.Call) ostate {
 	name := ssau.CallName(call)
 	args := call.Common().Args
 	elemKey := "e:" + c.e.ElemType
-	if strings.HasPrefix(name, "sort.Slice") && len(args) == 2 {
+	if (strings.HasPrefix(name, "sort.Slice") || name == "slices.SortFunc" || name == "slices.SortStableFunc") && len(args) == 2 {
 		x := ssau.Strip(args[0])
 		if !c.isElemSlice(x.Type()) {
 			return s
 		}
 		desc := false
-		if mc, ok := args[1].(*ssa.MakeClosure); ok {
-			if cf, ok := mc.Fn.(*ssa.Function); ok && c.e.IsDescCmp != nil && c.e.IsDescCmp(cf) {
-				desc = true
-			}
+		var cf *ssa.Function
+		switch cv := args[1].(type) {
+		case *ssa.MakeClosure:
+			cf, _ = cv.Fn.(*ssa.Function)
+		case *ssa.Function:
+			cf = cv
+		}
+		if cf != nil && c.e.IsDescCmp != nil && c.e.IsDescCmp(cf) {
+			desc = true
 		}
 		s = c.killAll(s)
 		if desc {
